@@ -27,6 +27,20 @@ def reply (toks : List String) : String :=
     match Wire.strOfHex h with
     | some t => let c := Language.fromTag t; s!"{c} {Wire.hexOfStr (Language.tag c)}"
     | none => "bad-request"
+  | "eval" :: rest =>
+    match WireExpr.parseRow rest with
+    | some (row, rest2) =>
+      match WireExpr.parseExpr (rest2.length + 1) rest2 with
+      | some (e, []) => WireExpr.resValueTok ((Ast.build e).eval row)
+      | _ => "bad-request"
+    | none => "bad-request"
+  | "fmt" :: rest =>
+    match WireExpr.parseExpr (rest.length + 1) rest with
+    | some (e, []) =>
+      match (Ast.build e).fmt with
+      | some s => Wire.hexOfStr s
+      | none => "unmodelled"
+    | _ => "bad-request"
   | ["ts_rt", secs, nanos] =>
     match secs.toInt?, nanos.toNat? with
     | some s, some n =>
